@@ -467,7 +467,10 @@ func attempt(caseStr string, scale int) (obs string, err error) {
 }
 
 func execCase(caseStr string) result {
-	for _, scale := range []int{1, 1, 2, 4, 5} {
+	for i, scale := range []int{1, 1, 2, 2, 4, 5, 8, 10} {
+		if i > 1 {
+			time.Sleep(time.Duration(150*i) * time.Millisecond) // let a load burst pass
+		}
 		type ar struct {
 			obs string
 			err error
@@ -572,6 +575,7 @@ func main() {
 		if res[i].dropped {
 			dropped++
 			out.Count("dropped-timing-unstable")
+			fmt.Fprintln(os.Stderr, "c18 harness: dropped (timing):", j.c)
 			continue
 		}
 		kind := strings.Fields(j.c + " ?")[0]
